@@ -178,4 +178,22 @@ PROPS = {
         "thorough": {"runs": [{"test": "^TestC10Download$", "shards": 8, "checks": 3000, "timeout": 3400},
                               {"test": "^TestC10Upload$", "shards": 8, "checks": 3000, "timeout": 3400}]},
     },
+    "C02": {
+        "title": "Segmentation-independent parsing of client byte streams",
+        "level": "exploration",
+        "rule": "rapid-generated well-formed sessions from a grammar (handshake, login in 1.2.3 or 1.5+agreed flow optionally pipelined with the "
+                "first batch, then 1-6 ops: batches of 1-3 requests out of 17 deterministic request kinds, file download, file upload with 2 or 3 "
+                "forks, folder download with an action script, folder upload of a small tree) played twice in identically built worlds: once "
+                "with one Write per message (baseline) and once under a generated partition (every byte separately / random cuts / dense cuts "
+                "inside the first 300 bytes of each message / one cut inside the first 23 bytes / messages coalesced into one Write), applied "
+                "to the control connection and to every transfer connection incl. the interactive folder protocols; oracle (metamorphic): "
+                "normalised multiset of transactions received by the client and by an observer, results of every transfer, final user list and "
+                "snapshot of the config dir + file root are identical (random ids / reference numbers / real-time file dates masked); "
+                "non-trivial = the partition put at least one cut strictly inside the first 22 bytes of a message (fixed-size header or length "
+                "field); distinct = hash(session, partition mode, partition seed)",
+        "assumptions": ["net.Pipe: one server-side Read never spans two client Writes, so the Write sequence is the segmentation the server sees"],
+        "quick": {"runs": [{"test": "^TestC02$", "shards": 16, "checks": 120, "timeout": 600}]},
+        "thorough": {"runs": [{"test": "^TestC02$", "shards": 16, "checks": 3000, "timeout": 3400},
+                              {"fuzz": "^FuzzC02$", "test": "FuzzC02", "fuzztime": "180s", "timeout": 600, "group": 1, "weight": 16}]},
+    },
 }
